@@ -641,7 +641,7 @@ func (e *containerExec) one(s *CStep) {
 	relaxed := false
 	textFlip := -1
 	fault := s.Fault
-	if n == 0 && fault != "" && fault != "trunc" && fault != "trailing" && fault != "text_flip" && fault != "version_flip" && fault != "hostile_len" {
+	if n == 0 && fault != "" && fault != "trunc" && fault != "trailing" && fault != "text_flip" && fault != "version_flip" && fault != "hostile_len" && fault != "bad_frame" {
 		fault = "trunc"
 	}
 	idx := 0
@@ -720,6 +720,45 @@ func (e *containerExec) one(s *CStep) {
 			out = flipBit(out, 8*2+s.Pos%(8*6)) // inside the "ctn-v1" key
 		} else {
 			out = flipBit(out, 8*1+s.Pos%(8*len(car.Header))) // inside the CAR header
+		}
+	case "bad_frame":
+		// a hostile container frame: odd CAR headers, odd ctn-v1 shapes
+		if isCar {
+			hdrs := []*CB{
+				cbMap(cbText("roots"), cbInt(1), cbText("version"), cbInt(1)),                 // roots not a list
+				cbMap(cbText("roots"), cbArray(), cbText("version"), cbText("1")),             // version not an int
+				cbArray(cbInt(1), cbInt(2)),                                                    // header not a map
+				cbInt(1),                                                                      // header a scalar
+				cbMap(cbText("roots"), cbArray(cbText("x")), cbText("version"), cbInt(1)),     // root not a link
+				cbMap(cbText("roots"), cbArray(), cbText("version"), cbInt(2)),                // other version
+				cbMap(cbText("roots"), cbArray(), cbText("version"), cbUint(1<<63)),           // version beyond int64
+				cbMap(cbText("version"), cbInt(1), cbText("x"), cbInt(1)),                     // no roots
+				cbMap(cbText("roots"), cbNull(), cbText("version"), cbInt(1)),
+				cbMap(cbText("roots"), cbArray(cbLink([]byte{1, 0x55, 0, 0})), cbText("version"), cbInt(1), cbText("extra"), cbInt(1)),
+			}
+			car.Header = hdrs[s.Pos%len(hdrs)].Encode()
+			out = car.Bytes()
+			if s.Pos%13 == 0 && n > 0 { // a block section shorter than any CID
+				out = append(append([]byte{}, out[:car.Boundaries()[0]]...), 0x02, 0x01, 0x71)
+			}
+		} else {
+			var entriesCB []*CB
+			for _, en := range entries {
+				entriesCB = append(entriesCB, cbBytes(en))
+			}
+			shapes := []*CB{
+				cbMap(cbInt(1), cbArray(entriesCB...)),                                   // version key not a string
+				cbMap(cbText("ctn-v1"), cbMap()),                                         // value not a list
+				cbMap(cbText("ctn-v1"), cbArray(append([]*CB{cbInt(1)}, entriesCB...)...)), // an entry that is not bytes, first
+				cbMap(cbText("ctn-v1"), cbArray(append(append([]*CB{}, entriesCB...), cbNull())...)),
+				cbMap(cbText("ctn-v1"), cbArray(entriesCB...), cbText("ctn-v2"), cbArray()), // two version keys
+				cbArray(entriesCB...),                                                    // not a map at all
+				cbMap(cbText("ctn-v2"), cbArray(entriesCB...)),
+				cbText("ctn-v1"),
+				cbMap(cbText("ctn-v1"), cbArray(append(append([]*CB{}, entriesCB...), cbArray(cbBytes([]byte{1})))...)),
+				cbMap(cbText("ctn-v1"), cbNull()),
+			}
+			out = shapes[s.Pos%len(shapes)].Encode()
 		}
 	case "hostile_len":
 		// a length prefix that declares far more than is there
@@ -809,7 +848,7 @@ func flipBit2(out []byte, bit int, car *carFile, idx int) []byte {
 func genContainer(r *Rand, g GenCfg) Plan {
 	p := &ContainerPlan{}
 	p.Cast = genCast(r, g.Tier, 2, 5)
-	n := []int{0, 1, 2, 2, 3, 4, 6, 8, 17, 33, 70}[r.Intn(11)]
+	n := []int{0, 1, 2, 2, 3, 4, 6, 8, 17, 23, 24, 25, 33, 70, 255, 256, 257}[r.Intn(17)]
 	if n > 8 {
 		// larger sets: cheap same-shaped Ed25519 delegations
 		p.Cast = nil
@@ -845,7 +884,7 @@ func genContainer(r *Rand, g GenCfg) Plan {
 	for i := r.Range(1, 3); i > 0; i-- {
 		p.Steps = append(p.Steps, CStep{Op: "roundtrip", Format: Pick(r, containerAPIs()), WStream: r.Chance(0.5), RStream: r.Chance(0.5), Chunks: mkChunks(), Perm: r.Perm(n)})
 	}
-	faults := []string{"hostile_len", "data_flip", "data_flip", "data_flip_relabel", "data_flip_relabel", "cid_flip", "swap_cids", "foreign_entry", "dup_entry", "drop_byte", "len_flip", "version_flip", "trunc", "trailing", "text_flip"}
+	faults := []string{"bad_frame", "hostile_len", "data_flip", "data_flip", "data_flip_relabel", "data_flip_relabel", "cid_flip", "swap_cids", "foreign_entry", "dup_entry", "drop_byte", "len_flip", "version_flip", "trunc", "trailing", "text_flip"}
 	for i := r.Range(2, 12); i > 0; i-- {
 		pos := r.Intn(1 << 13)
 		if r.Chance(0.3) {
